@@ -5,6 +5,7 @@ CONSTANTS MaxIdx = 2
           MaxReaders = 2
           MaxRF = 1
           Depth = 99
+          ReaderAtStart = FALSE
           DupMode = "any"
           QMode = "all"
 VIEW core
